@@ -67,9 +67,14 @@ func NewHostKey(r io.Reader) (ssh.Signer, ed25519.PrivateKey) {
 
 // NewSSHServer starts a server; Close it when done.
 func NewSSHServer(r io.Reader, accept func(SSHAuthEvent) bool) *SSHServer {
+	return NewSSHServerOn("127.0.0.1", r, accept)
+}
+
+// NewSSHServerOn starts a server on the given loopback address ("127.0.0.1" or "::1").
+func NewSSHServerOn(ip string, r io.Reader, accept func(SSHAuthEvent) bool) *SSHServer {
 	hk, _ := NewHostKey(r)
 	s := &SSHServer{HostKey: hk, Accept: accept, Questions: 1}
-	ln, err := net.Listen("tcp", "127.0.0.1:0")
+	ln, err := net.Listen("tcp", net.JoinHostPort(ip, "0"))
 	if err != nil {
 		panic(err)
 	}
